@@ -208,6 +208,19 @@ M("C08", "retries-ignored-on-v3-reauth", LAN, "    async def send(self, data: by
 M("C08", "online-sticky", DEV, "        self._online = len(responses) > 0", "        self._online = self._online or len(responses) > 0")
 M("C08", "stale-protocol-after-auth-failure", LAN, "        # Connect if protocol doesn't exist or is dead\n        if not self._alive:\n            self._disconnect()\n            await self._connect()", "        # Connect if protocol doesn't exist or is dead\n        if self._protocol is None:\n            await self._connect()")
 
+# ---- C01
+M("C01", "tobytes-mode-shift", CMD, "mode = (self.operational_mode & 0x7) << 5", "mode = (self.operational_mode & 0x3) << 5")
+M("C01", "parse-eco-bit", CMD, "self.eco = bool(payload[9] & 0x10)", "self.eco = bool(payload[9] & 0x80)")
+M("C01", "apply-drops-or-default", DEV, "cmd.target_humidity = or_default(self._target_humidity, 40)", "cmd.target_humidity = 40")
+M("C01", "update-state-skips-sleep", DEV, "            self._sleep = res.sleep\n", "")
+# (v3-reassembly-drops-tail and stale-queue-read-last leave no trace in C01's observations: the frames lost/reordered describe the same state; C04 kills the former)
+M("C07", "v3-counter-stuck", LAN, "        self._packet_id += 1\n        self._packet_id &= 0xFFF  # Mask to 12 bits", "        self._packet_id &= 0xFFF  # Mask to 12 bits")
+M("C01", "responses-applied-in-reverse", DEV, "        # Update state from responses\n        for response in responses:", "        # Update state from responses\n        for response in reversed(responses):")
+M("C01", "device-id-truncated-32", LAN, 'header += device_id.to_bytes(8, "little")  # Device ID', 'header += (device_id & 0xFFFFFFFF).to_bytes(8, "little")  # Device ID')
+M("C01", "refresh-keeps-first-state-only", DEV, "        for response in responses:\n            self._update_state(response)\n\n    async def _apply_properties", "        for response in responses[:1]:\n            self._update_state(response)\n\n    async def _apply_properties")
+M("C01", "hex-key-lowercased-twice", LAN, "                return bytes.fromhex(x) if isinstance(x, str) else x", "                return bytes.fromhex(x)[::-1] if isinstance(x, str) else x")
+M("C01", "toggle-display-sends-query", CMD, "            0x00, 0xFF, 0x02,\n            0x00, 0x02, 0x00, 0x00,", "            0x00, 0xFF, 0x03,\n            0x00, 0x02, 0x00, 0x00,")
+
 
 def apply_mutant(src_root: str, file: str, old: str, new: str) -> None:
     p = os.path.join(src_root, file)
